@@ -110,3 +110,10 @@ func (tracker *TxTracker) VerifAge(d time.Duration) {
 		tracker.txids[h] = t.Add(-d)
 	}
 }
+
+// VerifHeadReady: the first requested block has arrived (NextBlock would return it).
+func (state *State) VerifHeadReady() bool {
+	state.lock.Lock()
+	defer state.lock.Unlock()
+	return len(state.blocksRequested) > 0 && state.blocksRequested[0].block != nil
+}
